@@ -52,39 +52,37 @@ theorem openScript_spec (o : Oracle W) (w : W) (t : FdTable) (path : Nat) :
       minInternalFd ≤ n ∧ t.get n = none ∧ (openScript o w t path).2.1.isCloexec n = true ∧
       ∀ fd, fd ≠ n → (openScript o w t path).2.1.get fd = t.get fd) := by
   unfold openScript
-  cases hr : o.resolve w { path := path, args := fileIn } with
+  by_cases hd : ((o.deny w).2 || !t.inLimit (t.minUnused 0)) = true
+  · rw [if_pos hd]; exact ⟨rfl, fun _ _ => rfl, fun n h => by cases h⟩
+  rw [if_neg hd]
+  cases hr : o.resolve (o.deny w).1 { path := path, args := fileIn } with
   | mk w1 r =>
     cases r with
     | error e => exact ⟨rfl, fun _ _ => rfl, fun n h => by cases h⟩
     | ok ofd =>
       simp only
-      cases ha : t.openFdGe 0 { ofd := ofd, cloexec := true } (o.deny w1).2 with
-      | none => exact ⟨rfl, fun _ _ => rfl, fun n h => by cases h⟩
-      | some p =>
-        obtain ⟨fd0, t1⟩ := p
-        obtain ⟨_, h2, _, h4⟩ := FdTable.openFdGe_some ha
-        subst h4
-        simp only
-        have hget : (t.put fd0 (some { ofd := ofd, cloexec := true })).get fd0 = some { ofd := ofd, cloexec := true } := by simp
-        obtain ⟨hl, hA, hB⟩ := moveFdInternal_spec o (o.deny w1).1 _ fd0 _ hget
-        refine ⟨hl, fun hnone fd => ?_, fun n hn => ?_⟩
-        · by_cases hge : minInternalFd ≤ fd0
-          · rw [(hA hge).2] at hnone; cases hnone
-          · obtain ⟨h0, h1, _⟩ := hB (Nat.lt_of_not_le hge)
-            by_cases hfd : fd = fd0
-            · rw [hfd, h0, h2]
-            · rw [h1 hnone fd hfd]; simp [hfd]
-        · by_cases hge : minInternalFd ≤ fd0
-          · obtain ⟨ht, hr2⟩ := hA hge
-            rw [hr2] at hn; cases hn
-            rw [ht]
-            refine ⟨hge, h2, by simp [FdTable.isCloexec], fun fd hne => by simp [hne]⟩
-          · obtain ⟨h0, _, h3⟩ := hB (Nat.lt_of_not_le hge)
-            obtain ⟨hn1, hn2, hn3, hn4⟩ := h3 n hn
-            have hne : n ≠ fd0 := fun h => hge (h ▸ hn1)
-            refine ⟨hn1, by simpa [hne] using hn2, by simp [FdTable.isCloexec, hn3], fun fd hfd => ?_⟩
-            by_cases hfd0 : fd = fd0
-            · rw [hfd0, h0, h2]
-            · rw [hn4 fd hfd0 hfd]; simp [hfd0]
+      have h2 : t.get (t.minUnused 0) = none := FdTable.minUnused_free t 0
+      generalize t.minUnused 0 = fd0 at h2 ⊢
+      have hget : (t.put fd0 (some { ofd := ofd, cloexec := true })).get fd0 = some { ofd := ofd, cloexec := true } := by simp
+      obtain ⟨hl, hA, hB⟩ := moveFdInternal_spec o w1 _ fd0 _ hget
+      refine ⟨hl, fun hnone fd => ?_, fun n hn => ?_⟩
+      · by_cases hge : minInternalFd ≤ fd0
+        · rw [(hA hge).2] at hnone; cases hnone
+        · obtain ⟨h0, h1, _⟩ := hB (Nat.lt_of_not_le hge)
+          by_cases hfd : fd = fd0
+          · rw [hfd, h0, h2]
+          · rw [h1 hnone fd hfd]; simp [hfd]
+      · by_cases hge : minInternalFd ≤ fd0
+        · obtain ⟨ht, hr2⟩ := hA hge
+          rw [hr2] at hn; cases hn
+          rw [ht]
+          refine ⟨hge, h2, by simp [FdTable.isCloexec], fun fd hne => by simp [hne]⟩
+        · obtain ⟨h0, _, h3⟩ := hB (Nat.lt_of_not_le hge)
+          obtain ⟨hn1, hn2, hn3, hn4⟩ := h3 n hn
+          have hne : n ≠ fd0 := fun h => hge (h ▸ hn1)
+          refine ⟨hn1, by simpa [hne] using hn2, by simp [FdTable.isCloexec, hn3], fun fd hfd => ?_⟩
+          by_cases hfd0 : fd = fd0
+          · rw [hfd0, h0, h2]
+          · rw [hn4 fd hfd0 hfd]; simp [hfd0]
 
 end YashModel.Redir
